@@ -96,7 +96,83 @@ def encoder_dispatch(f, rule):
     return ok, order, det
 
 
+def macro_exec(ctx):
+    """use_macro_if_possible folded on a real encoder value for every combination of (header: 05 / 06 / damaged / truncated / none,
+    trailer: RS EOT / partial / none / swapped, body: empty / short / ending like a trailer / a nested envelope, codewords: empty /
+    [FNC1]): the macro codeword of the matched header is pushed and .data / .input become the body exactly when the codeword
+    vector is empty and the data starts with a complete header and ends with the trailer; otherwise nothing changes.
+    (ok | None, detail)"""
+    return ctx.memo("macro_exec", lambda: list(_macro_exec(ctx)))
+
+
+def _macro_exec(ctx):
+    f = ctx.facts()
+    fn = next((n for n in f.thir if T.canon(n).endswith("GenericDataEncoder::use_macro_if_possible")), None)
+    adt = f.adts.get(GDE)
+    if fn is None or not adt:
+        return None, "use_macro_if_possible / GenericDataEncoder not found"
+    b = f.thir[fn]
+    if len(b["params"]) != 1 or (b["params"][0].get("pat") or {}).get("k") != "Bind":
+        return None, "unexpected parameters"
+    selfn = b["params"][0]["pat"]["name"]
+    fields = [x["name"] for x in adt["variants"][0]["fieldtys"]]
+    heads = {"05": list(HEAD05), "06": list(HEAD06), "damaged": list(HEAD05[:5]) + [55, 29], "truncated": list(HEAD05[:6]), "none": []}
+    trails = {"RS EOT": list(TRAIL), "RS": [30], "none": [], "swapped": [4, 30]}
+    bodies = {"empty": [], "short": [65], "digits": [49, 50, 51], "trailer-like": [65, 30, 4], "nested": list(HEAD05) + [66] + list(TRAIL)}
+    n = 0
+    for hn, head in heads.items():
+        for tn, trail in trails.items():
+            for bn, body in bodies.items():
+                for cws in ([], [232]):
+                    data = head + body + trail
+                    me = {"__adt__": GDE, "__variant__": "GenericDataEncoder"}
+                    for i, nm in enumerate(fields):
+                        v = T.Token(nm)
+                        if nm in ("data", "input"):
+                            v = list(data)
+                        if nm == "codewords":
+                            v = list(cws)
+                        me[nm] = v
+                        me["#%d" % i] = v
+                    fo = T.Folder(f, env={selfn: me}, effects=True, local_calls=2)
+                    try:
+                        fo.run(b["body"])
+                    except T.Trap as ex:
+                        return False, "header %s, trailer %s, body %s, codewords %r: traps: %s" % (hn, tn, bn, cws, ex)
+                    except T.Undecidable as ex:
+                        return None, "use_macro_if_possible does not fold (%s)" % ex
+                    n += 1
+                    full = data[:7] in (list(HEAD05), list(HEAD06)) and not cws and data[-2:] == list(TRAIL) and len(data) >= 9
+                    want_cw = cws + ([236 if data[:7] == list(HEAD05) else 237] if full else [])
+                    want_data = data[7:-2] if full else data
+
+                    def ld(x):
+                        x = T._loaded(x)
+                        return [T._loaded(y) for y in x] if isinstance(x, list) else x
+                    got = (ld(me["codewords"]), ld(me["data"]), ld(me["input"]))
+                    if got != (want_cw, want_data, want_data):
+                        what = "codewords" if got[0] != want_cw else "data" if got[1] != want_data else "input"
+                        return False, "header %s, trailer %s, body %s, codewords before %r: afterwards %s is %r, expected %r" % (
+                            hn, tn, bn, cws, what, got[{"codewords": 0, "data": 1, "input": 2}[what]][:12], {"codewords": want_cw, "data": want_data, "input": want_data}[what][:12])
+    return True, "%d (header, trailer, body, codewords) combinations" % n
+
+
 def dom_macro(ctx):
+    """DOM-MACRO: guards by MIR dominance (cheap, names the missing guard); what the dominance analysis cannot recognise inside
+    use_macro_if_possible is decided by folding the function on a grid of inputs (macro_exec)"""
+    obs = _dom_macro_shape(ctx)
+    inner = ("guards-present", "pairing", "if-direction", "at-most-once")
+    failed = [o for o in obs if not o.ok and (o.key.split(":", 1)[1] in inner or o.key.split(":")[1] in ("push", "reslice"))]
+    if not failed:
+        return obs
+    okx, detx = macro_exec(ctx)
+    if not okx:
+        return obs
+    return [o if o not in failed else Ob("DOM-MACRO", o.key.split(":", 1)[1], True, o.what + " (guard structure not recognised; decided by folding use_macro_if_possible: " + str(detx) + ")", site=o.site)
+            for o in obs]
+
+
+def _dom_macro_shape(ctx):
     r = "DOM-MACRO"
     f = ctx.facts()
     obs = macro_consts(ctx)
